@@ -77,7 +77,20 @@ ModeSpecs == {"int", "np64", "np32", "npintp", "neg"}
 \* ValueError / TypeError is fine; if the call is accepted it is judged like the documented spelling.
 Lenient(rs, ms) == rs = "ndarray" \/ ms = "neg"
 Computed(rs) == rs \in {"same", "float"}
-Vias == {"function", "class", "refit"}
+Vias == {"function", "class", "refit", "fit"}       \* "fit": est.fit(tensor).decomposition_ (the estimators' other public method)
+\* Ways of making the same call (they rotate over the configurations; the contract does not depend on them):
+\*   cform    "mixed" | "pos" (every published parameter positionally, published order) | "kw" (all by published name);
+\*            the published signatures are frozen in the harness (SIGNATURES)
+\*   retry    the call is repeated with the same objects / estimator after a call that failed half-way
+\*            (unknown SVD name) was caught
+\*   ret_err  tucker(return_errors=True): "(tensor, errors)" is returned, the tensor is judged
+\*   svd_default  the default SVD is requested by leaving `svd` out
+\*   zeros    the exact zeros of a float tensor as +0.0 | -0.0 | the smallest subnormal
+CallForms == {"mixed", "pos", "kw"}
+ZeroForms == {"pos", "neg", "sub"}
+ValidHow(e) ==
+    /\ e.cform \in CallForms /\ e.retry \in BOOLEAN /\ e.ret_err \in BOOLEAN /\ e.svd_default \in BOOLEAN /\ e.zeros \in ZeroForms
+    /\ (e.ret_err => e.cfg.op = "tucker") /\ (e.svd_default => e.svd = "truncated_svd" /\ e.cform # "pos")
 Fractions == {25, 50, 100}        \* float rank specifications, in percent
 
 UniformRank(c) ==        \* the rank vector an integer specification stands for
